@@ -107,6 +107,9 @@ RULE = ('streams: fm = every modelled class x member (+ .mgz) x EVERY case mix o
         'read without rewind, full read+rewind, seek elsewhere, EOF} and random step lists, 5 serialisable classes (both '
         'header byte orders); observable per step: loaded image re-serialised / failure, stream position; spec = same steps '
         'on a BytesIO of the decompressed bytes and a fresh from_bytes; '
+        'bo = BYTE ORDER OF THE FILE ON DISK: every class nib.load picks by sniffing (NIfTI-1/2 single+pair, CIFTI-2, Analyze, '
+        'SPM99/2, MGH) x container in BOTH byte orders (CIFTI-2: the NIfTI-2 container re-written byte-swapped) x member x '
+        'spelling x suffix x stem: nib.load (str, Path) vs the class loader vs from_bytes / from_stream: same class and data; '
         'gen = the five functions of filename_parser.py translated from the source, run by the driver, vs the real functions '
         'on malformed + random + accepted names x real class tables and hand-made tables (extension without dot, None / empty '
         'extension, duplicate keys, empty table) x suffix lists (empty, upper-case, empty-string suffix) x match_case x '
@@ -448,6 +451,8 @@ def case_from_data(d):
         return mk_gen(d['fn'], d['args'])
     if op == 'pyop':
         return mk_pyop(d['fn'], d['args'])
+    if op == 'bo':
+        return mk_bo(d['cls'], d['endian'], d['ext'], d['ext_sp'], d['sfx_sp'], d.get('stem', 'f'), d.get('stream', 'bo'))
     if op == 'kw':
         return mk_kw(d['cls'], d['var'], d['kw'], d['ext'], d['ext_sp'], d['sfx_sp'], d.get('endian'), d.get('stream', 'kw'))
     if op == 'shist':
@@ -624,6 +629,7 @@ def cases(rng, tier):
     out.extend(hist_cases(rng, tier))
     out.extend(wprog_cases(rng, tier))
     out.extend(kw_cases(rng, tier))
+    out.extend(bo_cases(rng, tier))
     if tier != 'search':
         out.extend(stage_t_cases(rng, tier))
     out.extend(shist_cases(rng, tier))
@@ -1933,6 +1939,113 @@ def stage_t_cases(rng, tier):
                 out.append(mk_gen('_iendswith', [nm, e]))
     return out
 
+
+# --------------------------------------------------------------------------- byte order of the file on disk (stream `bo`)
+#
+# For every class that `nib.load` picks by sniffing the header, a VALID file of that class in EITHER byte order of its
+# binary container (as tools on other hosts write it) must come back from generic load as the same class, with the same
+# data, as from the class's own loader and from from_bytes / from_stream.  Oracle-only stream.
+
+BO_CLASSES = ['Nifti1Pair', 'Nifti1Image', 'Nifti2Pair', 'Nifti2Image', 'Cifti2Image', 'Spm2AnalyzeImage',
+              'Spm99AnalyzeImage', 'AnalyzeImage', 'MGHImage']
+
+
+def mk_bo(cls, endian, ext, ext_sp, sfx_sp, stem='f', stream='bo'):
+    d = {'op': 'bo', 'cls': cls, 'endian': endian, 'ext': ext, 'ext_sp': ext_sp, 'sfx_sp': sfx_sp, 'stem': stem,
+         'stream': stream}
+    return Case(None, d, ('bo', cls, endian, ext_sp, sfx_sp, stem), stream)
+
+
+def _bo_payload(cls, endian):
+    """bytes of a single-file image of `cls` whose container is in byte order `endian`"""
+    if cls == 'Cifti2Image':
+        from nibabel.nifti2 import Nifti2Image
+        b = make_image(cls).to_bytes()
+        n2 = Nifti2Image.from_bytes(b)
+        have = n2.header.endianness
+        if endian in (None, have):
+            return b
+        # the same CIFTI-2 file with its NIfTI-2 container (header + extension record + data) in the other byte order
+        return Nifti2Image(np.asarray(n2.dataobj), None, n2.header.as_byteswapped(endian)).to_bytes()
+    return make_image(cls, endian).to_bytes()
+
+
+def impl_bo(case):
+    import nibabel as nib
+    from nibabel.openers import ImageOpener
+    fbi = _nib()[0]
+    d = case.data
+    cls, en = d['cls'], d['endian']
+    k = class_by_name(cls)
+    ex = case.extra = {}
+    tmp = tempfile.mkdtemp(prefix='c12o_')
+    try:
+        fn = os.path.join(tmp, d['stem'] + d['ext_sp'] + d['sfx_sp'])
+        single = len(k.files_types) == 1
+        if single:
+            payload = _bo_payload(cls, en)
+            with ImageOpener(fn, 'wb') as f:
+                f.write(payload)
+            ex['order'] = {b'\x5c\x01\x00\x00': '<', b'\x00\x00\x01\x5c': '>', b'\x1c\x02\x00\x00': '<',
+                           b'\x00\x00\x02\x1c': '>'}.get(payload[:4], 'n/a')
+        else:
+            make_image(cls, en).to_filename(fn)
+            payload = None
+
+        def obs(f):
+            try:
+                im = f()
+                return type(im).__name__ + ':' + data_digest(im)
+            except Exception as e:  # noqa: BLE001
+                return 'ERR:' + type(e).__name__
+        res = {'load': obs(lambda: nib.load(fn)), 'load(Path)': obs(lambda: nib.load(pathlib.Path(fn))),
+               'from_filename': obs(lambda: k.from_filename(fn))}
+        if single and issubclass(k, fbi.SerializableImage):
+            res['from_bytes'] = obs(lambda: k.from_bytes(payload))
+            res['from_stream'] = obs(lambda: k.from_stream(io.BytesIO(payload)))
+            res['from_stream(file)'] = obs(lambda: k.from_stream(open(fn, 'rb')) if not d['sfx_sp'] and d['ext'] != '.mgz' else k.from_bytes(payload))
+        return ';'.join(f'{a}={b}' for a, b in res.items())
+    finally:
+        shutil.rmtree(tmp, ignore_errors=True)
+
+
+def oracle_bo(case, out):
+    d = case.data
+    cls = d['cls']
+    tag = (f'a valid {cls} file whose binary container is in byte order {d["endian"] or "(class default)"} '
+           f'stored as {d["stem"]}{d["ext_sp"]}{d["sfx_sp"]}')
+    res = dict(kv.split('=', 1) for kv in out.split(';'))
+    ref = res['from_filename']
+    if ref.startswith('ERR') or ref.split(':')[0] != cls:
+        return f'{tag}: {cls}.from_filename gives {ref}'
+    for r, v in res.items():
+        if v == ref:
+            continue
+        if r.startswith('load') and cls in ANALYZE_FAMILY and v.split(':')[0] in ANALYZE_FAMILY and \
+                v.split(':')[1:] == ref.split(':')[1:]:
+            continue     # (an Analyze-family pair reloads as the first family class of load()'s order)
+        return (f'{tag}: {r} gives {v}, {cls}.from_filename gives {ref}: generic load / bytes / stream must return the '
+                f'same class and data as the class loader')
+    return None
+
+
+def bo_cases(rng, tier):
+    out = []
+    for cls in BO_CLASSES:
+        ends = ['<', '>'] if (cls in ENDIAN_CLASSES or cls == 'Cifti2Image') else [None]
+        for en in ends:
+            exts = [e for e in member_exts(cls) if e != '.mat']
+            for e in exts:
+                sp = spellings(e)
+                sfx = [''] if e == '.mgz' else [''] + class_suffixes(cls)
+                picks = [(sp[0], ''), (sp[1], rng.choice(sfx).upper()), (rng.choice(sp), _pick_spelling(rng, rng.choice(sfx)))]
+                if tier != 'quick':
+                    picks += [(x, _pick_spelling(rng, z)) for x in sp for z in sfx]
+                for es, ss in dict.fromkeys(picks):
+                    stem = rng.choice(['f', 'x y.dscalar' if cls == 'Cifti2Image' else 'sub-01.v2', 'X.GZ'])
+                    out.append(mk_bo(cls, en, e, es, ss, stem))
+    return out
+
 # --------------------------------------------------------------------------- implementation side
 
 def show_map(m):
@@ -1998,6 +2111,8 @@ def impl(case):
         return impl_gen(d)
     if o == 'pyop':
         return impl_pyop(d)
+    if o == 'bo':
+        return impl_bo(case)
     if o == 'kw':
         return impl_kw(case)
     if o == 'shist':
@@ -2287,6 +2402,8 @@ def oracle(case, out):
         return oracle_wprog(case, out)
     if d['op'] == 'gen':
         return oracle_gen(d, out)
+    if d['op'] == 'bo':
+        return oracle_bo(case, out)
     if d['op'] == 'kw':
         return oracle_kw(case, out)
     if d['op'] == 'shist':
@@ -2304,6 +2421,8 @@ def signature(case, what):
         return f'wprog:{d["kind"]}:{d.get("cls") or "random"}'
     if d['op'] in ('gen', 'pyop'):
         return f'{d["op"]}:{d["fn"]}'
+    if d['op'] == 'bo':
+        return f'bo:{d["cls"]}:{d["endian"]}'
     if d['op'] == 'kw':
         return f'kw:{d["cls"]}:{",".join(sorted(d["kw"])) or "-"}'
     if d['op'] == 'shist':
